@@ -102,6 +102,14 @@ theorem window_suffices_x86 (fd : Bool) (p p' : Ins) (rest more : List Ins)
     findDepending .x86 fd p (rest ++ p' :: more) = findDepending .x86 fd p (rest ++ [p']) :=
   findDepending_window .x86 fd p p' rest more hd hsd (reflDests_x86 p)
 
+/-- **window_suffices_all**: the producer-level window property holds for every ISA and every
+    producer without any hypothesis: in the model as written a register that is not self-dependent
+    depends on nothing at all (`regDep_dead_or_refl`), so its scans emit nothing anyway. -/
+theorem window_suffices_all (isa : Isa) (fd : Bool) (p p' : Ins) (rest more : List Ins)
+    (hd : p'.dst = p.dst) (hsd : p'.srcDst = p.srcDst) :
+    findDepending isa fd p (rest ++ p' :: more) = findDepending isa fd p (rest ++ [p']) :=
+  findDepending_window_all isa fd p p' rest more hd hsd
+
 /-- **stream_local** (dependency of an occurrence on an earlier one, as a function of the segment
     between them): of all emissions of producer `p` over the stream `seg ++ c :: more`, those naming
     consumer `c` are `tagsAt isa fd p seg c` — a function of `p`, the segment strictly between, and
